@@ -211,3 +211,50 @@ func VerifH_C09_close_reports_final_error() {
 	vhCoroutineCloseTrace()
 	verifAssert(verifLiveGoroutines() == 0, "no-goroutine-left-behind")
 }
+
+// a function made by coroutine.wrap in one coroutine and called from another:
+// the values go to the caller (not to the creator), the consumer finishes, and
+// error handlers seen by a coroutine are those in force where it is resumed
+func VerifH_C09_wrap_called_from_another_coroutine() {
+	verifEnableRaceDetector()
+	vhWrapAcrossCoroutines()
+	verifAssert(verifLiveGoroutines() == 0, "no-goroutine-left-behind")
+}
+
+func vhWrapAcrossCoroutines() {
+	run := vhNewRun()
+	a := nondetInt64("a")
+	_, err := run.lua(`
+local a = ...
+local gen = coroutine.wrap(function() coroutine.yield(a) coroutine.yield(a + 1) return "end" end)
+local consumer = coroutine.create(function()
+  local v1 = gen()
+  emit("consumer-got", v1)
+  local r = coroutine.yield("paused")
+  emit("consumer-resumed", r, gen(), gen())
+  return "consumer-done"
+end)
+emit("main", coroutine.resume(consumer))
+emit("status", coroutine.status(consumer))
+emit("main", coroutine.resume(consumer, "go"))
+emit("status", coroutine.status(consumer))
+-- a coroutine started outside xpcall and failing when resumed inside it: the handler in force at the failing resume runs once
+local calls = 0
+local failing = coroutine.wrap(function() coroutine.yield("started") error(a, 0) end)
+emit("first", failing())
+emit("xpcall", xpcall(failing, function(e) calls = calls + 1 return e, "handled" end))
+emit("calls", calls)
+`, vhInt(a))
+	verifAssert(err == nil, "script-runs")
+	T, F := rt.BoolValue(true), rt.BoolValue(false)
+	verifAssert(vhTraceIs(run.trace,
+		vhStr("consumer-got"), vhInt(a),
+		vhStr("main"), T, vhStr("paused"),
+		vhStr("status"), vhStr("suspended"),
+		vhStr("consumer-resumed"), vhStr("go"), vhInt(a+1), vhStr("end"),
+		vhStr("main"), T, vhStr("consumer-done"),
+		vhStr("status"), vhStr("dead"),
+		vhStr("first"), vhStr("started"),
+		vhStr("xpcall"), F, vhInt(a),
+		vhStr("calls"), vhInt(1)), "wrap-and-handlers-across-coroutines")
+}
